@@ -680,6 +680,69 @@ Proof.
   rewrite Ef, Ef. apply Permutation_refl.
 Qed.
 
+(* ---- the abstract directory is the obvious map: a name resolves to the entry of the latest Set of that name that no later
+   Remove of that name followed ---- *)
+Definition named (n : bytes) (e : entry) : bool := bytes_eqb (e_name e) n.
+Fixpoint mlast (n : bytes) (ops : list hop) (cur : option entry) : option entry :=
+  match ops with
+  | [] => cur
+  | HSet e :: r => mlast n r (if bytes_eqb (e_name e) n then Some e else cur)
+  | HDel k _ :: r => mlast n r (if bytes_eqb k n then None else cur)
+  end.
+
+Lemma find_filter_other k n m : k <> n -> find (named n) (filter (other k) m) = find (named n) m.
+Proof.
+  intros Hkn. induction m as [|x m IH]; [reflexivity|]. cbn [filter find].
+  unfold other at 1, named at 2. destruct (bytes_eqb_spec (e_name x) k) as [Ek|Ek]; cbn [negb].
+  - destruct (bytes_eqb_spec (e_name x) n) as [En|_]; [congruence|exact IH].
+  - cbn [find]. unfold named at 1. destruct (bytes_eqb (e_name x) n); [reflexivity|exact IH].
+Qed.
+
+Lemma find_filter_same n m : find (named n) (filter (other n) m) = None.
+Proof.
+  induction m as [|x m IH]; [reflexivity|]. cbn [filter]. unfold other at 1.
+  destruct (bytes_eqb_spec (e_name x) n) as [En|En]; cbn [negb]; [exact IH|].
+  cbn [find]. unfold named at 1. destruct (bytes_eqb_spec (e_name x) n); [contradiction|exact IH].
+Qed.
+
+Lemma find_mstep n m o :
+  find (named n) (mstep m o) =
+  match o with
+  | HSet e => if bytes_eqb (e_name e) n then Some e else find (named n) m
+  | HDel k _ => if bytes_eqb k n then None else find (named n) m
+  end.
+Proof.
+  destruct o as [e|k h]; cbn [mstep].
+  - cbn [find]. unfold named at 1. destruct (bytes_eqb_spec (e_name e) n) as [En|En]; [reflexivity|].
+    apply find_filter_other. exact En.
+  - destruct (bytes_eqb_spec k n) as [->|Hk]; [apply find_filter_same|apply find_filter_other; exact Hk].
+Qed.
+
+Lemma mrun_is_latest n ops : forall m, find (named n) (fold_left mstep ops m) = mlast n ops (find (named n) m).
+Proof.
+  induction ops as [|o r IH]; intros m; [reflexivity|]. cbn [fold_left]. rewrite IH, find_mstep.
+  destruct o as [e|k h]; reflexivity.
+Qed.
+
+(* a lookup in what the reference wrote after a history returns the link of the latest Set of that name not followed by a
+   Remove of it, and not-found otherwise *)
+Theorem ref_history_lookup_is_latest size lg (Hperm : permitted size lg) (H : bytes -> bytes)
+  (H_wf : forall k, wf_bytes (H k) = true) (H_len : forall k, length (H k) = 8%nat) fuel ops t :
+  Forall (hop_ok H) ops -> hrun lg fuel ops = Ok t ->
+  let root := fst (serialize_node size HashMurmur3 (pad_len size) (BShard t)) in
+  forall key, fst (lookup nofault root (H key) key) =
+              match mlast key ops None with Some e => Ok (e_target e) | None => Err ENotFound end.
+Proof.
+  intros Hops Hr root key.
+  destruct (ref_history_read size lg Hperm H H_wf H_len fuel ops t Hops Hr) as (_ & Hm & Ha & _). fold root in Hm, Ha.
+  pose proof (mrun_is_latest key ops []) as Hl. cbn [find] in Hl. fold (mrun ops) in Hl. rewrite <- Hl.
+  destruct (find (named key) (mrun ops)) as [e|] eqn:Ef.
+  - apply find_some in Ef. destruct Ef as [Hin Hn]. unfold named in Hn. destruct (bytes_eqb_spec (e_name e) key) as [<-|]; [|discriminate].
+    apply Hm. exact Hin.
+  - apply Ha. intros Hi. apply in_map_iff in Hi. destruct Hi as (e & En & Hin).
+    pose proof (find_none _ _ Ef e Hin) as Hf. unfold named in Hf. rewrite En, bytes_eqb_refl in Hf. discriminate.
+Qed.
+
 (* non-vacuity: a history with a fork, a replacement, a removal that collapses a sub-shard and a removal of an absent name *)
 Definition demo_ops : list hop :=
   [HSet (demo_entry [65] 1); HSet (demo_entry [65; 1] 3); HSet (demo_entry [65; 1; 2] 5); HSet (demo_entry [66] 2);
